@@ -73,10 +73,32 @@ def check_steps(cfg, acc):
                 viol("cotangent", "projection_not_in_cotangent_space", cot, "<= 1e-9", state=si)
         except Exception as e:  # noqa: BLE001
             viol("exception", "momentum:" + type(e).__name__, repr(e)[:200], "momentum")
+        # a second system object of the same class (other metric) using a state warmed by the
+        # first one: its sampled / projected momenta must lie in ITS cotangent space
+        if si == 0 and cfg["system"]["metric"] != "dense_pd":
+            acc.count("evaluations")
+            try:
+                other = zoo.build_case(dict(cfg["system"], metric="dense_pd"))
+                st = zoo.mk_state(q, p)
+                S.sample_momentum(st, BasisRng(np.array([0.7, -1.3, 0.4])[:case.d]))
+                S.h(st)
+                S2 = other.system
+                m = np.array(S2.sample_momentum(st, BasisRng(np.array([0.7, -1.3, 0.4])[:case.d])))
+                c2, cot2 = on_bundle(other, q, m, ctol)
+                if cot2 > 1e-8 * (1 + np.max(np.abs(m))) * np.linalg.cond(other.metric_ref(q)):
+                    viol("cotangent", "second_system_momentum_not_in_its_cotangent_space", cot2,
+                         "<= 1e-8", state=si)
+            except Exception as e:  # noqa: BLE001
+                viol("exception", "second_system:" + type(e).__name__, repr(e)[:200], "momentum")
         for eps in EPS:
             integ = izoo.build_integrator(rec, S, abs(eps))
             x = zoo.mk_state(q, p, 1 if eps > 0 else -1)
             for k in range(3):
+                if k == 1 and eps == EPS[1]:
+                    # provenance: continue from a pickled / deep-copied warm state
+                    import copy as _copy
+                    import pickle as _pickle
+                    x = _pickle.loads(_pickle.dumps(x)) if si % 2 == 0 else _copy.deepcopy(x)
                 acc.count("evaluations")
                 try:
                     x = integ.step(x)
